@@ -80,6 +80,8 @@ class Gen:
         ex = list(self.m.chans)
         if ex and self.r.random() < existing_bias:
             return self.r.choice(ex)
+        if self.r.random() < 0.03:
+            return "#"  # a one-character channel name: accepted by JOIN/TOPIC/MODE/..., not addressable by PRIVMSG
         return self.r.choice(self.chans)
 
     def mask_for(self, nick=None):
@@ -414,6 +416,9 @@ class Gen:
                 out.append(u.nick)
         if r.random() < 0.15 and out:
             out.append(r.choice(out))
+        if r.random() < 0.05:
+            # words at the edge of the target syntax: bare sigils (with and without status prefixes), a host-like name
+            out.insert(r.randrange(len(out) + 1), r.choice(["#", "&", "@#", "+&", "~&&", "%#", "@&", "al.x", "@+#"]))
         return out
 
     def g_privmsg(self, live):
